@@ -27,6 +27,7 @@ class Chain(VC):
     sites or a short history on one (owner, spender) key show up"""
     property_id = "C02"
     crate = CRATE
+    limits = {"thorough": {"time": 3600}}
 
     def __init__(self, *variants):
         self.variants = variants
@@ -50,6 +51,15 @@ class Chain(VC):
             msg = symval.fresh(I, ctx, "Cw20ExecuteMsg", f"msg{k}", None, CRATE)
             msg.variants = [variant]
             f.msg = m = I.force(ctx, msg)
+            if len(self.variants) >= 3:
+                # three-call chains follow ONE (owner, spender) key: later changes come from the first owner for the first spender,
+                # the draw is made by that spender on that owner (other interleavings are covered by the two-call chains)
+                m1 = f1.msg
+                owner1, spender1 = f1.info.get("sender"), m1.get("spender")
+                if variant in ("IncreaseAllowance", "DecreaseAllowance"):
+                    if not ctx.str_eq(f.info.get("sender"), owner1) or not ctx.str_eq(m.get("spender"), spender1): raise Infeasible()
+                elif m.names and "owner" in m.names:
+                    if not ctx.str_eq(m.get("owner"), owner1) or not ctx.str_eq(f.info.get("sender"), spender1): raise Infeasible()
             f.sender = resolve(ctx, f.info.get("sender"), f.U)
             f.addr = {}
             for fld in ("owner", "spender", "recipient", "contract"):
@@ -209,8 +219,10 @@ def vcs(tier):
         out += [Chain("IncreaseAllowance", "TransferFrom")] + [Chain(a, b) for a in ("DecreaseAllowance", "IncreaseAllowance") for b in ("BurnFrom", "SendFrom")]
         out += [Chain("TransferFrom", "IncreaseAllowance")] + [Chain(a, b) for a in ("BurnFrom", "SendFrom") for b in ("DecreaseAllowance", "IncreaseAllowance")]
         out += [Chain(a, b) for a in DRAW for b in DRAW]
-        # three calls on one key: revoke / re-grant / draw and its variations
-        out += [Chain(a, b, "TransferFrom") for a in ("DecreaseAllowance", "IncreaseAllowance") for b in ("DecreaseAllowance", "IncreaseAllowance")]
+    # three calls on one (owner, spender) key: revoke / re-grant / draw and its variations (~30 s each)
+    out += [Chain(a, b, "TransferFrom") for a in ("DecreaseAllowance", "IncreaseAllowance") for b in ("DecreaseAllowance", "IncreaseAllowance")]
+    if tier == "thorough":
+        out += [Chain(a, b, d) for a in ("DecreaseAllowance", "IncreaseAllowance") for b in ("DecreaseAllowance", "IncreaseAllowance") for d in ("SendFrom", "BurnFrom")]
     out += [Ghost(v) for v in ("IncreaseAllowance", "DecreaseAllowance", "TransferFrom", "SendFrom", "BurnFrom", "Transfer", "Burn")]
     return out
 
